@@ -128,6 +128,14 @@ struct Explorer
                 add("IR", static_cast<int>(k), static_cast<int>(len));
         for (size_t len = 0; len <= c + 1; len++)
             add("PBR", static_cast<int>(len));
+        // the same through single-pass input iterators: append at the end, insert at the front
+        for (size_t len = 0; len <= c + 1; len++)
+        {
+            add("PBRI", static_cast<int>(len));
+            add("IRI", static_cast<int>(s), static_cast<int>(len));
+            if (s > 0)
+                add("IRI", 0, static_cast<int>(len));
+        }
         if (copyable)
         {
             add("CC");
